@@ -89,6 +89,38 @@ class install_tape:
         return False
 
 
+class BudgetMonitor(Monitor):
+    """Counts tape reads and trips after `max_reads`.  Generated scripts can make the work explode - every level of LOOP or
+    TRY / EXCEPT around a recursive CALL / EVAL multiplies it by the call-stack limit (TRY catches the limit errors), so a
+    40-byte script can run for centuries.  Such a case decides nothing about the properties that do not speak about
+    running time; it is screened out (and counted) before a check runs it unmonitored.  After the trip every read of
+    every tape raises again, so the abort also gets out of the script's own TRY blocks."""
+
+    def __init__(self, max_reads):
+        super().__init__()
+        self.max_reads = max_reads
+        self.n = 0
+
+    def event(self, name, n=1):
+        if name == 'reads':
+            self.n += 1
+            if self.n > self.max_reads:
+                self.violate('step-budget', self.n)
+
+
+def within_budget(scripts, cache=None, limits=(1024, 1024, 128), max_reads=60000, contracts=None):
+    """True if running the scripts one after the other (as run_auth_scripts does) needs at most max_reads tape reads"""
+    m = BudgetMonitor(max_reads)
+    with install_tape(m):
+        try:
+            F.run_auth_scripts([s for s in scripts if s] or [b'\x01'], dict(cache or {}), dict(contracts or {}), stack_max_items=limits[0],
+                               stack_max_item_size=limits[1], callstack_limit=limits[2])
+        except BaseException as e:  # noqa
+            if isinstance(e, (KeyboardInterrupt, SystemExit)):
+                raise
+    return not m.tripped
+
+
 # ===================================================================== VM
 class MonDeque(deque):
     """Stack storage that checks the limits on every mutation."""
